@@ -118,6 +118,25 @@ func ruleJSONParse(c *Ctx, r *R) {
 	for _, w := range want {
 		r.check(has[w], "walker-case:"+w, c.Pos(sw.stmt.Pos()), "handled", fmt.Sprintf("the JSON value walker has no case for %s, a dynamic type encoding/json produces: such values are silently dropped from the parsed result", w))
 	}
+	// 15.12.2: the members of a parsed object are created as by an object literal ([[DefineOwnProperty]]), never assigned
+	// with [[Put]], which would consult setters and read-only properties inherited from Object.prototype
+	puts, defines := "", 0
+	for _, b := range walker.Blocks {
+		for _, ins := range b.Instrs {
+			call, ok := ins.(*ssa.Call)
+			if !ok || call.Call.StaticCallee() == nil || call.Call.StaticCallee().Signature.Recv() == nil {
+				continue
+			}
+			switch call.Call.StaticCallee().Name() {
+			case "put":
+				puts = c.Pos(instrPos(call))
+			case "defineProperty", "defineOwnProperty":
+				defines++
+			}
+		}
+	}
+	r.check(puts == "" && defines > 0, "walker-members", c.Pos(walker.Pos()), "object members are created with [[DefineOwnProperty]]",
+		"the JSON value walker assigns object members with [[Put]] ("+puts+"): a setter or a read-only property of that name on Object.prototype swallows the member (`Object.defineProperty(Object.prototype, 'x', {set: f}); JSON.parse('{\"x\":1}').hasOwnProperty('x')` is false); ES5 15.12.2 creates them like an object literal does")
 }
 
 func describeValue(v ssa.Value) string {
